@@ -113,7 +113,12 @@ func buildMsg(s msgSpec) (raw []byte, answersEnd int) {
 		chk(b.StartAnswers())
 		owner := qname
 		for k, ttl := range s.cnames {
-			target := mustName(fmt.Sprintf("cn%d.%s.", k, s.name))
+			tn := fmt.Sprintf("cn%d.%s.", k, s.name)
+			if len(tn) > 254 {
+				// the name already fills the 253-byte limit: alias into the zone instead of below the name
+				tn = fmt.Sprintf("cn%d-alias.c17.test.", k)
+			}
+			target := mustName(tn)
 			chk(b.CNAMEResource(dnsmessage.ResourceHeader{Name: owner, Class: dnsmessage.ClassINET, TTL: ttl}, dnsmessage.CNAMEResource{CNAME: target}))
 			owner = target
 		}
